@@ -24,7 +24,7 @@ def RungDone (rg : Rung) (ff : Nat) : Prop := rg.slots.length ≤ ff ∧ pending
 
 instance (rg : Rung) (ff : Nat) : Decidable (RungDone rg ff) := by unfold RungDone; infer_instance
 
-theorem checkResult_ok {spec b res rg sl} (hw : BWF spec b) (hl : LegalRes b res rg sl) :
+theorem checkResult_ok {spec b res rg sl} (_hw : BWF spec b) (hl : LegalRes b res rg sl) :
     b.checkResult res = .ok rg := by
   unfold Bracket.checkResult
   have h1 : ¬ res.rungIndex ≠ b.current := by simp [hl.ri]
@@ -148,7 +148,7 @@ theorem nodup_filterMap_set_tid (l : List Slot) (p : Nat) (sl new : Slot) (h : l
         · exact hn.1 hc
         · rcases htid with ht | ht
           · apply hfresh ht t hc
-            simp [List.filterMap_cons, hy]
+            simp [hy]
           · apply hn.1
             rw [← ht] at hc
             exact List.mem_filterMap.mpr ⟨sl, List.mem_of_getElem? h, hc⟩
